@@ -28,6 +28,7 @@ package parallel
 //@ pure exhausted(ts []execution.TaskRef, maxAttempts int64) bool = !anySucc(ts) && cntFin(ts, len(ts)) >= maxAttempts
 
 //@ func getIndexStatus
+//@   params index, hash, tasks, maxAttempts
 //@   tags C10
 //@   loop 1 invariant -1 <= rangeindex && rangeindex < len(tasks)
 //@   loop 1 invariant numTerminal == cntFin(tasks, rangeindex + 1) && numTerminal >= 0 && numRunning >= 0 && numStarting >= 0 && numTerminal + numRunning + numStarting == rangeindex + 1
@@ -51,6 +52,7 @@ package parallel
 //@ pure created(ix execution.ParallelIndexStatus) bool = ix.State == execution.IndexRetryBackoff || ix.State == execution.IndexStarting || ix.State == execution.IndexRunning || ix.State == execution.IndexTerminated
 
 //@ func GetParallelStatusCounters
+//@   params indexes
 //@   tags C10
 //@   loop 1 invariant -1 <= rangeindex && rangeindex < len(indexes)
 //@   loop 1 invariant status.Starting == cntState(indexes, rangeindex + 1, execution.IndexStarting) && status.Running == cntState(indexes, rangeindex + 1, execution.IndexRunning)
@@ -121,6 +123,7 @@ package parallel
 
 // GenerateIndexes (C14): exactly the requested indexes, in a deterministic order, nothing else set
 //@ func GenerateIndexes
+//@   params spec
 //@   tags C14, C17
 //@   safety alloc
 //@   assumes passed-admission: spec != nil && spec.WithCount != nil ==> *spec.WithCount >= 0
@@ -170,6 +173,7 @@ package parallel
 // "one-slot-per-index" is the property's "distinct indexes never share a ... status slot": it needs HashIndex to be
 // injective on the indexes of the spec, which it is not (known finding F2).
 //@ func HashIndexes
+//@   params indexes
 //@   tags C14
 //@   loop 1 invariant -1 <= rangeindex && rangeindex < len(indexes)
 //@   loop 1 invariant forall k int :: 0 <= k && k <= rangeindex ==> (k in hashes) && hashes[k] == hashOf(indexes[k]) && (hashOf(indexes[k]) in hashesIdx)
@@ -206,6 +210,7 @@ package parallel
 //@     && ns(q.Earliest) == latestFin(job.Status.Tasks, hashOf(q.ParallelIndex), len(job.Status.Tasks)) + execution.retryDelaySeconds(job) * 1000000000
 
 //@ func ComputeMissingIndexesForCreation
+//@   params job, indexes
 //@   tags C08
 //@   requires job != nil
 //@   assumes hashes-are-distinct-known-finding-F2: distinctHashes(indexes)
